@@ -206,6 +206,10 @@ func (s *InterfaceType) SignatureIDL() string {
 // TypeName returns a statement to be inserted when the type is to be
 // declared.
 func (s *InterfaceType) TypeName() *jen.Statement {
+	if s.PackageName == "" {
+		// the interface belongs to the package being generated
+		return jen.Id(objName(s.Name))
+	}
 	return jen.Qual(s.PackageName, objName(s.Name))
 }
 
